@@ -19,7 +19,9 @@ Definition c02_source_facts : bool :=
   c02_fn_end_then_go_err_returned && c02_fn_wait_select && c02_fn_wait_loop &&
   c02_fn_start_err_returned && c02_fn_copy_results_returned && c02_docopy_errs_returned &&
   c02_go_returns_cause && c02_go_task_err_cancels && c02_go_start_fail_cancels &&
-  c02_go_skip_when_cancelled && c02_start_acquire_err_returned && c02_ext_outer_closure.
+  c02_go_skip_when_cancelled && c02_start_acquire_err_returned && c02_ext_outer_closure &&
+  c02_prepare_refpusher_branch && c02_prepare_precopy_pushes_root_with_reference &&
+  c02_prepare_postcopy_tags_root && c02_prepare_skipped_and_mounted_root_tagged.
 
 Lemma source_facts_hold : c02_source_facts = true.
 Proof. reflexivity. Qed.
